@@ -1145,8 +1145,14 @@ class BaseGateway:
         self._receivelock = self.execmodel.RLock()
         # globals may be NONE at process-termination
         self.__trace = trace
-        self._geterrortext = geterrortext
+        self._geterrortext = self._sendable_errortext
         self._receivepool = WorkerPool(self.execmodel)
+
+    def _sendable_errortext(self, exc: BaseException, geterrortext=geterrortext) -> str:
+        # the text is sent as strict UTF-8: a lone surrogate in the message
+        # must not make the failure itself unreportable
+        text = geterrortext(exc)
+        return text.encode("utf-8", "backslashreplace").decode("utf-8")
 
     def _trace(self, *msg: object) -> None:
         self.__trace(self.id, *msg)
